@@ -2,7 +2,7 @@
 """Run every seeded change under /verif/seeded against its own property's quick check and the neighbouring
 checks (one at a time, each applied to /repo by seedtest.py and reverted), and write seeded/RESULTS.json plus a
 markdown table (seeded/RESULTS.md).  Not a registered check: a development tool for measuring detection.
-usage: seedall.py [<id-prefix> ...]"""
+usage: seedall.py [<id-prefix> | re:<regex> ...]"""
 import glob, json, os, re, subprocess, sys, time
 EXTRA = {"C01": ["C05", "C06", "C08"], "C02": ["C03", "C04"], "C03": ["C02", "C04"], "C04": ["C02", "C03"], "C08": ["C01"],
          "C09": ["C10", "C11"], "C10": ["C09"], "C11": ["C09"], "C13": ["C14"], "C14": ["C13"]}
@@ -12,7 +12,7 @@ res_path = "seeded/RESULTS.json"
 results = json.load(open(res_path)) if os.path.exists(res_path) else {}
 for d in sorted(glob.glob("seeded/C*-m*")):
     sid = os.path.basename(d)
-    if want and not any(sid.startswith(w) for w in want):
+    if want and not any(re.fullmatch(w[3:], sid) if w.startswith("re:") else sid.startswith(w) for w in want):
         continue
     meta = json.load(open(d + "/meta.json")) if os.path.exists(d + "/meta.json") else {}
     if "obsolete" in (meta.get("caught_by") or {}):
@@ -34,7 +34,10 @@ for d in sorted(glob.glob("seeded/C*-m*")):
             r.setdefault("_problems", []).append(line[:200])
     print(sid, json.dumps(r), flush=True)
     results = json.load(open(res_path)) if os.path.exists(res_path) else {}   # another instance may have written
-    results[sid] = {"checks": r, "wall": round(time.time() - t0)}
+    merged = dict((results.get(sid) or {}).get("checks") or {})      # keep the last result of checks not run this time
+    merged.pop("_problems", None)
+    merged.update(r)
+    results[sid] = {"checks": merged, "wall": round(time.time() - t0)}
     json.dump(results, open(res_path, "w"), indent=1, sort_keys=True)
 
 
